@@ -3,27 +3,41 @@
 (* initial state <<0, counter, ids already open>>, then                              *)
 (*   <<1, id>> LocalOpen   <<2, id>> PeerOpenBegin   <<3, id>> PeerOpenCommit         *)
 (*   <<4, id>> PeerOpenReject   <<5, id>> Close                                       *)
+(*   <<6, id>> stray OPEN_FAILURE   <<7, id>> stray OPEN_CONFIRMATION   <<8, id>> duplicate CLOSE *)
+(* StrayFirst = TRUE directs the generation: the history starts with a stray          *)
+(* OPEN_FAILURE for a channel that is open, and only opens follow - the counter then   *)
+(* travels towards that id (wrap-around).                                              *)
 (* `adv` is how far the counter has moved: histories stop before it has gone once    *)
 (* round the model's (small) id space, so that model ids map one-to-one, in order,   *)
 (* onto real ids around the real wrap point 2^24 - 1 -> 0.                            *)
 EXTENDS ChannelIds
-CONSTANTS MaxSteps, MaxInit
+CONSTANTS MaxSteps, MaxInit, StrayFirst
 VARIABLES hist, adv
 SetToSeq(S) == CHOOSE f \in [1..Cardinality(S) -> S] : \A i, j \in 1..Cardinality(S) : i < j => f[i] < f[j]
 Dist(a, b) == (b - a + N) % N             \* steps from a to b going up cyclically
 GInit == /\ counter \in Ids /\ pend = <<>> /\ inwin = 0
          /\ \E S \in SUBSET Ids : /\ Cardinality(S) <= MaxInit
+                                  /\ (StrayFirst => S # {})
                                   /\ map = S /\ open = [i \in S |-> 1]
          /\ hist = <<<<0, counter, SetToSeq(map)>>>>
          /\ adv = 0
 Step(tag, id) == hist' = Append(hist, <<tag, id>>)
+First == StrayFirst /\ Len(hist) = 1
+\* out-of-turn messages are sparse (two per history) and name ids that mean something: an open channel, a
+\* half-registered peer open, or the id the counter points at (no channel)
+StrayCount == Cardinality({i \in 2..Len(hist) : hist[i][1] \in {6, 7, 8}})
+StrayIds == DOMAIN open \cup Range(pend) \cup {counter}
 GNext ==
   /\ Len(hist) <= MaxSteps
-  /\ \/ LocalOpen /\ Step(1, NextFree(counter, map)) /\ adv' = adv + Dist(counter, counter')
-     \/ PeerOpenBegin /\ Step(2, NextFree(counter, map)) /\ adv' = adv + Dist(counter, counter')
+  /\ \/ ~First /\ LocalOpen /\ Step(1, NextFree(counter, map)) /\ adv' = adv + Dist(counter, counter')
+     \/ ~First /\ PeerOpenBegin /\ Step(2, NextFree(counter, map)) /\ adv' = adv + Dist(counter, counter')
      \/ PeerOpenCommit /\ Step(3, pend["T"]) /\ adv' = adv
      \/ PeerOpenReject /\ Step(4, pend["T"]) /\ adv' = adv
-     \/ \E id \in DOMAIN open : Close(id) /\ Step(5, id) /\ adv' = adv
+     \/ ~StrayFirst /\ \E id \in DOMAIN open : Close(id) /\ Step(5, id) /\ adv' = adv
+     \/ \E id \in StrayIds : /\ (StrayFirst => First /\ id \in DOMAIN open) /\ StrayCount < 2
+                        /\ StrayOpenFailure(id) /\ Step(6, id) /\ adv' = adv
+     \/ ~StrayFirst /\ StrayCount < 2 /\ \E id \in StrayIds : StrayOpenSuccess(id) /\ Step(7, id) /\ adv' = adv
+     \/ ~StrayFirst /\ StrayCount < 2 /\ \E id \in StrayIds : DuplicateClose(id) /\ Step(8, id) /\ adv' = adv
   /\ adv' < N
 GSpec == GInit /\ [][GNext]_<<vars, hist, adv>>
 Emit == (Len(hist) = MaxSteps + 1 /\ "T" \notin DOMAIN pend) => PrintT(<<"BEH", hist>>)
